@@ -31,7 +31,8 @@ ASSUMPTIONS = [
 ]
 FLOORS = {"triples:one-origin-diff-depth>=2": 0.08, "triples:in-tuple-index>=1": 0.08, "triples:equal-pair": 0.2}
 
-ORIGIN_VARIANTS = ["same", "one", "kind_code_gen", "kind_no_vs", "multi_vs_first", "range", "source", "member"]
+ORIGIN_VARIANTS = ["same", "one", "kind_code_gen", "kind_no_vs", "multi_vs_first", "range", "source", "member",
+                   "member_kind", "member_order", "member_count"]
 
 
 def _set_origin_variant(a: dict, b: dict, variant: str, pos: int, n: int) -> tuple[int, bool]:
@@ -60,6 +61,17 @@ def _set_origin_variant(a: dict, b: dict, variant: str, pos: int, n: int) -> tup
     elif variant == "member":
         x["o"] = ["multi", [["code", s, 1, 2], ["xml", 3, "/a"]]]
         y["o"] = ["multi", [["code", s, 1, 2], ["xml", 3, "/b"]]]
+    elif variant == "member_kind":
+        # members that differ only in their class: same source, same (empty) position
+        other = ["xml", 3, "/a"]
+        x["o"] = ["multi", [["code", s, 0, 0], other][:: 1 if n % 4 < 2 else -1]]
+        y["o"] = ["multi", [["gen", s], other][:: 1 if n % 4 < 2 else -1]]
+    elif variant == "member_order":
+        m1, m2 = ["code", s, 1, 2], ["gen", (s + 1) % 3]
+        x["o"], y["o"] = ["multi", [m1, m2]], ["multi", [m2, m1]]
+    elif variant == "member_count":
+        m1, m2 = ["code", s, 1, 2], ["gen", (s + 1) % 3]
+        x["o"], y["o"] = ["multi", [m1, m2]], ["multi", [m1, m2, m2]]
     if n % 2:
         x["o"], y["o"] = y.get("o", ["no"]), x.get("o", ["no"])
     return i, True
